@@ -1,0 +1,64 @@
+//go:build verif
+
+// Machine-checked contracts for package dnsserver (comment-only; read by /verif's govc).
+
+package dnsserver
+
+// ---- ghost observation state (C19): counters, query log, wire ------------------------------------------
+//@ ghostvar cnt (Array Str Int)
+//@ ghostvar nlogged int
+//@ ghostvar lastLogged int
+//@ ghostvar loggedAt int
+//@ ghostvar nlogfailed int
+//@ ghostvar nwritten int
+//@ ghostvar lastWritten int
+//@ ghostvar writtenAt int
+//@ ghostvar mut int
+
+// ---- assumed contracts of the collaborators (interfaces / dependencies) -------------------------------
+//@ extern github.com/facebookincubator/dns/dnsrocks/dnsserver/stats Stats.IncrementCounter
+//@ updates cnt
+//@ ensures cnt == upd(old(cnt), key, old(cnt)[key] + 1)
+
+//@ func Logger.Log
+//@ trusted
+//@ updates nlogged, lastLogged, loggedAt
+//@ ensures nlogged == old(nlogged) + 1 && lastLogged == r && loggedAt == mut
+
+//@ func Logger.LogFailed
+//@ trusted
+//@ updates nlogfailed
+//@ ensures nlogfailed == old(nlogfailed) + 1
+
+//@ extern github.com/miekg/dns ResponseWriter.WriteMsg
+//@ updates nwritten, lastWritten, writtenAt
+//@ ensures err == nil ==> nwritten == old(nwritten) + 1 && lastWritten == arg0 && writtenAt == mut
+//@ ensures err != nil ==> nwritten == old(nwritten) && lastWritten == old(lastWritten) && writtenAt == old(writtenAt)
+
+// SizeAndDo / Scrub (coredns) fit the reply to the client's buffer: they may add an OPT, drop records and
+// set TC, but keep the header's Id, Rcode and Authoritative; every such mutation bumps the ghost counter mut.
+//@ extern github.com/coredns/coredns/request Request.SizeAndDo
+//@ updates mut
+//@ modifies m
+//@ ensures mut == old(mut) + 1 && m.Rcode == old(m.Rcode) && m.Authoritative == old(m.Authoritative) && m.Id == old(m.Id)
+
+//@ extern github.com/coredns/coredns/request Request.Scrub
+//@ updates mut
+//@ modifies reply
+//@ ensures mut == old(mut) + 1 && reply.Rcode == old(reply.Rcode) && reply.Authoritative == old(reply.Authoritative) && reply.Id == old(reply.Id) && len(reply.Answer) <= old(len(reply.Answer))
+
+// ---- writeAndLog (C19): what is counted and logged is exactly what was sent ----------------------------
+//@ func FBDNSDB.writeAndLog
+//@ updates cnt, nlogged, lastLogged, loggedAt, nwritten, lastWritten, writtenAt, mut
+//@ requires h.logger != nil && h.stats != nil && state.W != nil && resp != nil
+//@ modifies resp
+//@ ensures[fail] err != nil ==> nlogged == old(nlogged) && cnt == old(cnt) && result0 == dns.RcodeServerFailure
+//@ ensures[once] err == nil ==> nwritten == old(nwritten) + 1 && nlogged == old(nlogged) + 1 && lastWritten == resp && lastLogged == resp
+//@ ensures[assent] err == nil ==> loggedAt == writtenAt
+//@ ensures[rcode] err == nil ==> result0 == old(resp.Rcode) && resp.Rcode == old(resp.Rcode)
+//@ ensures[nonauth] err == nil ==> cnt["DNS_queries_notauthoritative"] == old(cnt)["DNS_queries_notauthoritative"] + ite(resp.Authoritative, 0, 1)
+//@ ensures[nxdomain] err == nil ==> cnt["DNS_queries_nxdomain"] == old(cnt)["DNS_queries_nxdomain"] + ite(old(resp.Rcode) == dns.RcodeNameError, 1, 0)
+//@ ensures[refused] err == nil ==> cnt["DNS_queries_refused"] == old(cnt)["DNS_queries_refused"] + ite(old(resp.Rcode) == dns.RcodeRefused, 1, 0)
+//@ ensures[badvers] err == nil ==> cnt["DNS_queries_badvers"] == old(cnt)["DNS_queries_badvers"] + ite(old(resp.Rcode) == dns.RcodeBadVers, 1, 0)
+//@ ensures[nodata] err == nil ==> cnt["DNS_queries_nodata"] == old(cnt)["DNS_queries_nodata"] + ite(old(resp.Rcode) == dns.RcodeSuccess && len(resp.Answer) == 0, 1, 0)
+//@ ensures[others] err == nil ==> cnt["DNS_queries"] == old(cnt)["DNS_queries"]
